@@ -50,6 +50,12 @@ def cases(seed, tier):
     return cs
 
 
+def np_isinf_any(V):
+    import numpy as _np
+
+    return any(_np.isneginf(_np.asarray(v)).any() for v in V)
+
+
 def _on_grid(info, tag=""):
     """(a): simulated values of on-grid agents against the implementation's own value arrays, through the model's layout"""
     mj, V, rows = info["mj"], info["V"], info["rows"]
@@ -93,6 +99,11 @@ def _on_grid(info, tag=""):
                 # a state of a non-last period whose every choice has value -inf: the continuation interpolates among -inf
                 # entries (0 * -inf, -inf + inf), which the model leaves undefined (`interpExt` = none) - not compared
                 info["ninf_nonlast_skipped"] = info.get("ninf_nonlast_skipped", 0) + 1
+                continue
+            if row["value"] != row["value"] and t < mj["n_periods"] - 1 and bool(np_isinf_any(V)):
+                # OPEN (DESIGN 11.16b): `nan` from simulate in a non-last period of a specification whose arrays hold -inf
+                # entries - interpolation next to -inf, undefined in the model; counted, not compared, not decided
+                info["nan_next_to_ninf_skipped"] = info.get("nan_next_to_ninf_skipped", 0) + 1
                 continue
             if not close_floats([entry], [row["value"]]):
                 vs.append({"clause": "simulated value equals the value array entry at an on-grid state",
@@ -172,6 +183,8 @@ def run_case(case):
     out["evals"] = n_on + cells
     out["hist"]["on_grid_agent_periods"] = n_on
     out["hist"]["ninf_in_V"] = int(bool(info.get("has_ninf")))
+    if info.get("nan_next_to_ninf_skipped"):
+        out["hist"]["on_grid_skipped_nan_next_to_ninf_OPEN"] = info["nan_next_to_ninf_skipped"]
     if info.get("ninf_nonlast_skipped"):
         out["hist"]["on_grid_skipped_ninf_in_non_last_period"] = info["ninf_nonlast_skipped"]
     out["hist"]["fully_discrete"] = int(not any(g["k"] != "disc" for _, g in mj["states"]))
